@@ -9,6 +9,7 @@ from __future__ import annotations
 
 import ast
 import os
+import re
 
 from vlib import py2v
 from vlib.py2v import Untranslatable, dotted
@@ -138,10 +139,11 @@ def _strip_or_none(n):
 
 
 def order_key_facts(tree, src):
-    """How orderBy turns a sort column that is not already an Ordered node, and the flag `asc` it was given, into an
-    ORDER BY term: (desc as a function of asc, nulls_first as a function of asc, default of `ascending`).
-    Two shapes are read (anything else fails closed):
-      P  sqlglot.parse_one(f"{<col sql>} {'DESC' if <test> else ''}", dialect=self.session.input_dialect, into=exp.Ordered)
+    """How orderBy turns a sort column that is not already an Ordered node, and the flag it was given through
+    `ascending`, into an ORDER BY term: (desc as a function of the flag, nulls_first as a function of the flag, default of
+    `ascending`).  The one call that builds the term is looked up anywhere in the method (comprehension or loop); local
+    names that are assigned exactly once are read through.  Two shapes of that call are read, anything else fails closed:
+      P  sqlglot.parse_one(f"{<col>.expression.sql(...)} {<'DESC' or ''>}", dialect=<the session's input dialect>, into=exp.Ordered)
          -- the text is parsed with the session's input dialect (Spark), which supplies Spark's default NULL placement
       D  exp.Ordered(this=..., desc=<E1>, nulls_first=<E2>)   -- the flags are written out"""
     f = py2v.find_method(tree, "BaseDataFrame", "orderBy")
@@ -159,65 +161,105 @@ def order_key_facts(tree, src):
                 default = a.value.left.elts[0].value
     if default is None:
         raise Untranslatable("orderBy: default of `ascending` (`if ascending is None: ascending = [<bool>] * len(columns)`) not found")
-    # the comprehension that builds the ORDER BY terms: (<term> if i not in pre_ordered_col_indexes else <pre-ordered>) for i, (col, asc) in ...
-    comps = [n for n in ast.walk(f) if isinstance(n, ast.ListComp) and isinstance(n.elt, ast.IfExp)]
-    if len(comps) != 1:
-        raise Untranslatable(f"orderBy: expected one list comprehension of conditional ORDER BY terms, found {len(comps)}")
-    comp = comps[0]
-    gen = comp.generators[0]
-    tgt = gen.target
-    if not (isinstance(tgt, ast.Tuple) and len(tgt.elts) == 2 and isinstance(tgt.elts[1], ast.Tuple)
-            and len(tgt.elts[1].elts) == 2 and all(isinstance(x, ast.Name) for x in tgt.elts[1].elts)):
-        raise Untranslatable("orderBy: comprehension target is not `i, (col, asc)`")
-    flag = tgt.elts[1].elts[1].id
-    test = comp.elt.test
-    if not (isinstance(test, ast.Compare) and len(test.ops) == 1 and isinstance(test.ops[0], ast.NotIn)
-            and dotted(test.comparators[0]) == "pre_ordered_col_indexes"):
-        raise Untranslatable("orderBy: the conditional is not `... if i not in pre_ordered_col_indexes else ...`")
-    term = comp.elt.body
-    tr = py2v.Tr(types={flag: "bool"}, env={}, calls={})
-    if not isinstance(term, ast.Call):
-        raise Untranslatable("orderBy: ORDER BY term is not a call")
+    # names assigned exactly once by a plain `name = expr` / `name: T = expr` (read through), and loop / comprehension variables
+    assigned, count, loopvars = {}, {}, {}
+    for n in ast.walk(f):
+        tgt = val = None
+        if isinstance(n, ast.Assign) and len(n.targets) == 1 and isinstance(n.targets[0], ast.Name):
+            tgt, val = n.targets[0].id, n.value
+        elif isinstance(n, ast.AnnAssign) and isinstance(n.target, ast.Name) and n.value is not None:
+            tgt, val = n.target.id, n.value
+        if tgt:
+            count[tgt] = count.get(tgt, 0) + 1
+            assigned[tgt] = val
+        if isinstance(n, (ast.For, ast.comprehension)):
+            for x in ast.walk(n.target):
+                if isinstance(x, ast.Name):
+                    loopvars[x.id] = n.iter
+
+    def through(n):
+        for _ in range(4):
+            if isinstance(n, ast.Name) and count.get(n.id) == 1 and n.id not in loopvars:
+                n = assigned[n.id]
+            else:
+                break
+        return n
+
+    def from_ascending(name):
+        it = loopvars.get(name)
+        if it is None:
+            return False
+        names = {x.id for x in ast.walk(it) if isinstance(x, ast.Name)}
+        for _ in range(3):
+            names |= {y.id for x in list(names) if count.get(x) == 1 for y in ast.walk(assigned[x]) if isinstance(y, ast.Name)}
+        return "ascending" in names
+
+    builders = [n for n in ast.walk(f) if isinstance(n, ast.Call) and
+                (dotted(n.func) == "exp.Ordered" or
+                 (dotted(n.func) == "sqlglot.parse_one" and any(k.arg == "into" and dotted(k.value) == "exp.Ordered" for k in n.keywords)))]
+    if len(builders) != 1:
+        raise Untranslatable(f"orderBy: expected one call that builds an ORDER BY term (parse_one(..., into=exp.Ordered) or exp.Ordered(...)), found {len(builders)}")
+    term = builders[0]
     callee = dotted(term.func)
     kws = {k.arg: k.value for k in term.keywords}
+
+    def flag_expr(e):
+        """translate a boolean expression over exactly one loop variable that comes from `ascending`"""
+        e = through(e)
+        free = {x.id for x in ast.walk(e) if isinstance(x, ast.Name)}
+        if len(free) != 1:
+            raise Untranslatable(f"orderBy: direction expression mentions {sorted(free)}")
+        flag = next(iter(free))
+        if not from_ascending(flag):
+            raise Untranslatable(f"orderBy: `{flag}` is not an element of `ascending`")
+        txt, ty = py2v.Tr(types={flag: "bool"}, env={}, calls={}).e(e)
+        if ty != "bool":
+            raise Untranslatable("orderBy: direction expression is not boolean")
+        return re.sub(r"\b" + re.escape(flag) + r"\b", "asc", txt)
+
     if callee == "sqlglot.parse_one":
-        if dotted(kws.get("into")) != "exp.Ordered" or dotted(kws.get("dialect")) != "self.session.input_dialect" \
-                or len(term.args) != 1 or not isinstance(term.args[0], ast.JoinedStr):
-            raise Untranslatable("orderBy: parse_one(...) is not (f-string, dialect=self.session.input_dialect, into=exp.Ordered)")
+        if dotted(through(kws.get("dialect"))) != "self.session.input_dialect" or len(term.args) != 1 \
+                or not isinstance(term.args[0], ast.JoinedStr) or set(kws) != {"dialect", "into"}:
+            raise Untranslatable("orderBy: parse_one(...) is not (f-string, dialect=<self.session.input_dialect>, into=exp.Ordered)")
         parts = term.args[0].values
-        # f"{col.expression.sql(dialect=...)} {'DESC' if <test> else ''}"
+        # f"{<col>.expression.sql(dialect=...)} {<direction word>}"
         ok = (len(parts) == 3 and isinstance(parts[0], ast.FormattedValue) and isinstance(parts[0].value, ast.Call)
-              and dotted(parts[0].value.func) == "col.expression.sql"
+              and isinstance(parts[0].value.func, ast.Attribute) and parts[0].value.func.attr == "sql"
+              and (dotted(parts[0].value.func.value) or "").endswith(".expression")
               and isinstance(parts[1], ast.Constant) and parts[1].value == " "
-              and isinstance(parts[2], ast.FormattedValue) and isinstance(parts[2].value, ast.IfExp))
+              and isinstance(parts[2], ast.FormattedValue))
         if not ok:
-            raise Untranslatable("orderBy: sort text is not f\"{col.expression.sql(...)} {<'DESC' or ''>}\"")
-        ife = parts[2].value
+            raise Untranslatable("orderBy: sort text is not f\"{<col>.expression.sql(...)} {<'DESC' or ''>}\"")
+        ife = through(parts[2].value)
+        if not isinstance(ife, ast.IfExp):
+            raise Untranslatable("orderBy: direction word is not a conditional")
         lits = (ife.body.value if isinstance(ife.body, ast.Constant) else None,
                 ife.orelse.value if isinstance(ife.orelse, ast.Constant) else None)
-        c, tc = tr.e(ife.test)
-        if tc != "bool":
-            raise Untranslatable("orderBy: direction test is not boolean")
+        c = flag_expr(ife.test)
         if lits == ("DESC", "") or lits == ("DESC", "ASC"):
             desc = c
         elif lits == ("", "DESC") or lits == ("ASC", "DESC"):
             desc = f"(negb {c})"
         else:
             raise Untranslatable(f"orderBy: direction words {lits}")
-        return {"shape": "text parsed with the input dialect", "flag": flag, "desc": desc,
+        return {"shape": "text parsed with the input dialect", "flag": "asc", "desc": desc,
                 "nulls_first": f"(spark_text_nulls_first {desc})", "default": default, "hash": py2v.src_hash(f, src)}
-    if callee == "exp.Ordered":
-        if term.args or set(kws) - {"this", "desc", "nulls_first"} or "this" not in kws:
-            raise Untranslatable("orderBy: exp.Ordered(...) with other arguments")
-        if "nulls_first" not in kws:
-            raise Untranslatable("orderBy: exp.Ordered without nulls_first (the NULL placement would be the engine's default)")
-        desc, td = tr.e(_strip_or_none(kws["desc"])) if "desc" in kws else ("false", "bool")
-        nf, tn = tr.e(_strip_or_none(kws["nulls_first"]))
-        if td != "bool" or tn != "bool":
-            raise Untranslatable("orderBy: desc / nulls_first are not boolean")
-        return {"shape": "exp.Ordered built directly", "flag": flag, "desc": desc, "nulls_first": nf, "default": default,
-                "hash": py2v.src_hash(f, src)}
-    raise Untranslatable(f"orderBy: ORDER BY term built by {callee}")
+    # exp.Ordered(...)
+    if term.args or set(kws) - {"this", "desc", "nulls_first"} or "this" not in kws:
+        raise Untranslatable("orderBy: exp.Ordered(...) with other arguments")
+    if "nulls_first" not in kws:
+        raise Untranslatable("orderBy: exp.Ordered without nulls_first (the NULL placement would be the engine's default)")
+
+    def flag_or_const(e):
+        e = _strip_or_none(through(e))
+        if isinstance(e, ast.Constant) and isinstance(e.value, bool):
+            return "true" if e.value else "false"
+        return flag_expr(e)
+
+    desc = flag_or_const(kws["desc"]) if "desc" in kws else "false"
+    nf = flag_or_const(kws["nulls_first"])
+    return {"shape": "exp.Ordered built directly", "flag": "asc", "desc": desc, "nulls_first": nf, "default": default,
+            "hash": py2v.src_hash(f, src)}
 
 
 ORDER_METHODS = ["asc", "asc_nulls_first", "asc_nulls_last", "desc", "desc_nulls_first", "desc_nulls_last"]
